@@ -5,6 +5,7 @@ From Coq Require Import ZArith List Bool.
 From CP Require Import Core.Bytes Core.Result Prim.Int Prim.Mpint Prim.Timestamp Base.Enum Frame.LVFrame Frame.Units.
 From CP Require Import Lemmas.IntLemmas Lemmas.NoLeakLemmas Lemmas.UnitInstances Lemmas.EnumTables.
 From CPGen Require Import Tables.
+From CP Require Import Frame.Ssl2 Frame.SshPacket Lemmas.CanonLemmas.
 Open Scope Z_scope.
 
 (* engine primitives, for every buffer, every offset and every supported width *)
@@ -49,3 +50,15 @@ Qed.
 (* the pinned tree leaked: an SSH mpint length followed by no data raised IndexError *)
 Theorem C02_pinned_ssh_mpint_refuted : parse_ssh_mpint_orig (cons Byte.x00 (cons Byte.x00 (cons Byte.x00 (cons Byte.x03 nil)))) 0 = Err (Leak IndexError).
 Proof. exact parse_ssh_mpint_orig_leaks. Qed.
+
+(* the SSL 2.0 record layer and the SSH binary packet layer: whatever the buffer, no exception other than the four documented
+   errors, provided the message parser the payload is handed to has none; the message parsers of the runner have none *)
+Theorem C02_ssl2_record : forall msg types,
+  (forall t m e, msg t m <> Err (Leak e)) -> forall buf e, ssl2_parse msg types buf <> Err (Leak e).
+Proof. exact ssl2_no_leak. Qed.
+Theorem C02_ssh_packet : forall msg,
+  (forall m e, msg m <> Err (Leak e)) -> forall buf e, ssh_parse msg buf <> Err (Leak e).
+Proof. exact ssh_no_leak. Qed.
+Theorem C02_record_message_parsers : forall codes,
+  (forall t m e, ssl2_msg codes t m <> Err (Leak e)) /\ (forall m e, ssh_msg_init codes m <> Err (Leak e)).
+Proof. exact record_message_parsers_no_leak. Qed.
